@@ -27,6 +27,7 @@ type distStats struct {
 
 type stepRecord struct {
 	op    Op
+	calls []simvk.Call
 	res   StepResult
 	lines []string // everything after the OP line
 	fails []oracleFail
@@ -77,9 +78,12 @@ func runHistory(cfg WorldCfg, src opSource, maxOps int, stopAtFail string) *hist
 		w.dev.TakeLog() // drop anything the observation itself caused
 		fails := w.checkStep(prev, cur, res, calls, viols, notes)
 
-		rec := stepRecord{op: op, res: res, fails: fails}
+		rec := stepRecord{op: op, res: res, fails: fails, calls: calls}
 		L := []string{res.line()}
 		L = append(L, res.Extra...)
+		if w.cur.faulted {
+			L = append(L, fmt.Sprintf("FAULTS %d", w.cur.faultsFired))
+		}
 		for _, c := range calls {
 			L = append(L, "CALL "+c.String())
 		}
@@ -147,6 +151,41 @@ func runHistory(cfg WorldCfg, src opSource, maxOps int, stopAtFail string) *hist
 done:
 	for k := 0; k < int(simvk.NumCallKinds); k++ {
 		h.callCnt[k] = w.dev.CallCounts[k].Load()
+	}
+	return h
+}
+
+// runHistoryTail executes ops on a fresh world; observables and oracles are evaluated only from step
+// index from-1 on (the prefix is executed without observation, which is much faster).
+func runHistoryTail(cfg WorldCfg, ops []Op, from int) *history {
+	w := newWorld(cfg)
+	h := &history{cfg: cfg, world: w}
+	var prev *snapshot
+	for i, op := range ops {
+		res := w.Step(op)
+		calls := w.dev.TakeLog()
+		viols := w.dev.TakeViolations()
+		notes := w.dev.TakeNotes()
+		rec := stepRecord{op: op, res: res, calls: calls}
+		if i >= from-1 {
+			cur := w.observe()
+			w.dev.TakeLog()
+			if i >= from {
+				rec.fails = w.checkStep(prev, cur, res, calls, viols, notes)
+			}
+			prev = cur
+			if cur.obsPanic != "" {
+				w.poisoned = true
+			}
+		}
+		h.steps = append(h.steps, rec)
+		if w.poisoned {
+			// keep the step list aligned with the op list
+			for _, rest := range ops[i+1:] {
+				h.steps = append(h.steps, stepRecord{op: rest, res: StepResult{Kind: "skip"}})
+			}
+			break
+		}
 	}
 	return h
 }
@@ -252,10 +291,10 @@ func readTrace(path string) (*traceFile, error) {
 			d.Types = make([]simvk.TypeCfg, nt)
 			d.HeapBudget = make([]int, nh)
 			d.HeapOtherUsage = make([]int, nh)
-		case "HEAP":
+		case "HEAPCFG":
 			i := atoi(fl[1])
 			if len(fl) != 7 || i < 0 || i >= nh {
-				return nil, fmt.Errorf("bad HEAP line %q", line)
+				return nil, fmt.Errorf("bad HEAPCFG line %q", line)
 			}
 			t.cfg.Dev.Heaps[i] = simvk.HeapCfg{Size: atoi(fl[2]), DeviceLocal: atoi(fl[3]) != 0}
 			if lim := atoi(fl[4]); lim >= 0 {
@@ -266,10 +305,10 @@ func readTrace(path string) (*traceFile, error) {
 			}
 			t.cfg.Dev.HeapBudget[i] = atoi(fl[5])
 			t.cfg.Dev.HeapOtherUsage[i] = atoi(fl[6])
-		case "TYPE":
+		case "TYPECFG":
 			i := atoi(fl[1])
 			if len(fl) != 4 || i < 0 || i >= nt {
-				return nil, fmt.Errorf("bad TYPE line %q", line)
+				return nil, fmt.Errorf("bad TYPECFG line %q", line)
 			}
 			t.cfg.Dev.Types[i] = simvk.TypeCfg{Heap: atoi(fl[2]), Flags: uint32(atoi(fl[3]))}
 		case "OP":
